@@ -18,6 +18,7 @@ import z3
 HERE = os.path.dirname(os.path.abspath(__file__))
 ROOT = os.path.dirname(HERE)
 SCRATCH = os.path.join(ROOT, '.scratch')
+PORTFOLIO = int(os.environ.get('VERIF_PORTFOLIO', '3'))      # variants (nlsat variable orders) per obligation whose cap is >= 20 s
 
 
 class Ob:
@@ -92,10 +93,10 @@ class _Worker:
         pass
       self.p = None
 
-  def solve(self, path, timeout, tactic, grace=5.0, incremental=False, mode=None):
+  def solve(self, path, timeout, tactic, grace=5.0, incremental=False, mode=None, params=None):
     if self.p is None or self.p.poll() is not None:
       self.start()
-    req = json.dumps({'path': path, 'timeout': timeout, 'tactic': tactic, 'incremental': incremental, 'mode': mode})
+    req = json.dumps({'path': path, 'timeout': timeout, 'tactic': tactic, 'incremental': incremental, 'mode': mode, 'params': params})
     t0 = time.time()
     result = {}
 
@@ -143,28 +144,42 @@ def discharge(obs, workers=None, log=None):
     path = os.path.join(tmpd, '%d.smt2' % i)
     with open(path, 'w') as f:
       f.write(ob.smt2)
-    q.put((ob, path))
-    n += 1
+    k = max(1, int(ob.meta.get('portfolio') or (PORTFOLIO if (ob.timeout >= 20 and ob.core and ob.kind != 'lemma') else 1)))
+    ob._pending, ob._done = k, False
+    for vi in range(k):
+      # portfolio: the same query under different nlsat variable orders, first decisive answer wins (nlsat run times on one formula vary by 10x with the order)
+      q.put((ob, path, None if vi == 0 else {'nlsat.shuffle_vars': True, 'nlsat.seed': vi}))
+      n += 1
   lock = threading.Lock()
 
   def loop():
     w = _Worker()
     while True:
       try:
-        ob, path = q.get_nowait()
+        ob, path, params = q.get_nowait()
       except queue.Empty:
         break
-      r = w.solve(path, ob.timeout, ob.tactic)
-      ob.status = r.get('status', 'error')
-      ob.time = r.get('time', 0.0)
-      ob.model = r.get('model')
-      ob.detail = r.get('detail')
-      try:
-        os.unlink(path)
-      except OSError:
-        pass
-      if log:
-        with lock:
+      with lock:
+        if ob._done:
+          ob._pending -= 1
+          continue
+      r = w.solve(path, ob.timeout, ob.tactic, params=params)
+      with lock:
+        ob._pending -= 1
+        if ob._done:
+          continue
+        st = r.get('status', 'error')
+        decisive = st in ('unsat', 'sat')
+        if decisive or ob.status is None or ob._pending == 0:
+          if decisive or ob.status is None:
+            ob.status = st
+            ob.time = r.get('time', 0.0)
+            ob.model = r.get('model')
+            ob.detail = r.get('detail')
+            ob.variant = params
+        if decisive:
+          ob._done = True
+        if log and (decisive or ob._pending == 0):
           log(ob)
     w.kill()
   ths = [threading.Thread(target=loop, daemon=True) for _ in range(min(workers, max(n, 1)))]
@@ -172,10 +187,8 @@ def discharge(obs, workers=None, log=None):
     t.start()
   for t in ths:
     t.join()
-  try:
-    os.rmdir(tmpd)
-  except OSError:
-    pass
+  import shutil
+  shutil.rmtree(tmpd, ignore_errors=True)
   return obs
 
 
